@@ -31,6 +31,9 @@ MutChecks(e) ==
   ELSE IF e.op.k = "new" THEN
     LET post == ToGraph(e.post) IN
     <<<<"res", e.res = "Ok">>, <<"post", post = EmptyGraph(post.specs)>>, <<"wellformed", WellFormed(post)>>>>
+  ELSE IF e.op.k = "state" THEN
+    (* a graph met in a recorded execution (the state before a recorded call) *)
+    <<<<"wellformed", WellFormed(ToGraph(e.post))>>>>
   ELSE IF e.op.k = "new_from" THEN
     LET x == NewFromRule(e.op.specs, ToNodes(e.op.ns), ToEdgeArgs(e.op.es)) IN
     <<<<"res", e.res = x.res>>,
